@@ -697,3 +697,62 @@ class AContrastive(Adapter):
 
 for _a in (AQBC("vote_entropy"), AQBC("variation_ratios"), AClue("least_confident"), AClue("entropy"), AProbCover(), AContrastive(), AContrastive(1)):
     register(_a)
+
+
+# --------------------------------------------------------------------------
+# GreedySamplingTarget (regression strategy; labels of the scenario are used as targets)
+# --------------------------------------------------------------------------
+def make_stub_regressor(sym, inputs=None, missing=NAN):
+    """regressor by contract: predict is an uninterpreted function of the feature row (finite real)"""
+    import z3
+    from skactiveml.base import SkactivemlRegressor
+
+    class StubReg(SkactivemlRegressor):
+        def __init__(self, missing_label=NAN, random_state=None):
+            super().__init__(missing_label=missing_label, random_state=random_state)
+
+        def fit(self, X, y, sample_weight=None):
+            return self
+
+        def predict(self, X):
+            if sym:
+                c = core.ctx()
+                X = arrays.asnd(X)
+                f = models._fn("regF", X.shape[1])
+                out = [core.SymFloat(f(z3.IntVal(0), z3.IntVal(0), *models._row_terms(list(r)))) for r in arrays.raw(X)]
+                if not hasattr(c, "inputs"):
+                    c.inputs = {}
+                c.inputs.setdefault("__reg__", []).extend([[list(r), o] for r, o in zip(arrays.raw(X), out)])
+                return arrays.SymNd(arrays._to_obj(out) if out else np.empty(0, dtype=object), float)
+            X = np.asarray(X, dtype=float)
+            out = np.zeros(len(X))
+            for i, r in enumerate(X):
+                for row, v in (inputs or {}).get("__reg__", []):
+                    if np.array_equal(np.asarray(row, dtype=float), r):
+                        out[i] = v
+            return out
+    return StubReg(missing_label=missing)
+
+
+class AGreedyTarget(Adapter):
+    independent = False
+    product_abstraction = True
+
+    def __init__(self, method, n_gsx):
+        self.method = method
+        self.n_gsx = n_gsx
+        self.name = f"GreedySamplingTarget[{method}+{n_gsx}GSx]"
+        self.units = ["skactiveml.pool._greedy_sampling:GreedySamplingTarget.query", "skactiveml.pool._greedy_sampling:_greedy_sampling",
+                      "skactiveml.pool._greedy_sampling:_measure_distance"]
+
+    def make(self, seed, sym=True, inputs=None, **kw):
+        self._inputs = inputs
+        return pool().GreedySamplingTarget(method=self.method, n_GSx_samples=self.n_gsx, random_state=seed, **kw)
+
+    def call(self, qs, s, b, sym, table=None, return_utilities=True):
+        reg = make_stub_regressor(sym, getattr(self, "_inputs", None))
+        return qs.query(s.X, s.y, reg, fit_reg=False, candidates=s.cand, batch_size=b, return_utilities=return_utilities)
+
+
+for _a in (AGreedyTarget("GSy", 1), AGreedyTarget("GSi", 2)):
+    register(_a)
